@@ -107,6 +107,7 @@ class Scheduler(BaseScheduler[Job, Callable[..., None]]):
         for job in self.__jobs:
             if job._tzinfo != self.__tzinfo:
                 raise SchedulerError(TZ_ERROR_MSG)
+        self.__jobs = {job for job in self.__jobs if job.has_attempts_remaining}
 
         self.__n_threads = n_threads
         self.__tz_str = check_tzname(tzinfo=tzinfo)
